@@ -21,8 +21,35 @@ ASSUMPTIONS = ["x86-TSO: only the store->load fence in hazard_pointer_using is n
 R = "hazard_pointer_thread_record"
 
 
+def check_node_base(ctx, P):
+    """the reclamation callback frees / recycles the hazard_node_t pointer it is given as if it were the node: the hazard member must be the
+    first member of the node type (unless the callback recovers the node's address by pointer arithmetic)"""
+    name = "fiber_manager_return_mpmc_node_internal"
+    if not P.has_fn(name):
+        return
+    f = P.fn(name)
+    o = ctx.ob("node.base", f, "the pointer the reclamation callback hands to free() / to the free-node pool is the address of the whole node: "
+               "`hazard` is at offset 0 of mpmc_fifo_node_t (the pool's consumers cast the pointer back to mpmc_fifo_node_t*)",
+               "with `hazard` anywhere else free() is given an interior pointer (heap corruption) and recycled nodes are shifted by the offset: a pusher "
+               "writes value/prev/next over a neighbour")
+    hp = f.params[1]["did"] if len(f.params) > 1 else None
+    direct = False
+    for c in f.calls(("free", "lockfree_ring_buffer_trypush", "lockfree_ring_buffer_push")):
+        for a in f.args(c):
+            r = f.resolve(a)
+            if r is not None and r.k == "DeclRefExpr" and r.did == hp:
+                direct = True
+    off = P.field("mpmc_fifo_node", "hazard").get("off_bits")
+    if not direct:
+        o.ok("the callback does not release its argument directly")
+    else:
+        o.check(off == 0, "hazard at offset 0", "`hazard` is at byte offset %s of mpmc_fifo_node_t but the callback releases the hazard pointer itself" % (off // 8 if off is not None else "?"),
+                site=f.loc, construct="hazard member not first")
+
+
 def run(ctx):
     P = ctx.prog()
+    check_node_base(ctx, P)
     from rules import check_zeroed_alloc
     check_zeroed_alloc(ctx, P, "hazard_pointer_thread_record_create_and_push", "record.zero", "the hazard slots of a new thread record",
                        "a stale slot word that equals a node's address is a phantom hazard: every scan keeps that node in the retired list for ever "
